@@ -165,6 +165,21 @@ fn eval_options(ctx: &Ctx, case: &OptionCase) -> Verdict {
     if d >= 2 {
         axis_lists.push(vec![d - 1, 0]);
     }
+    // every ordered pair / triple of distinct axes (the index arithmetic after sorting the list)
+    if d >= 3 {
+        for a in 0..d {
+            for b in 0..d {
+                if a != b {
+                    axis_lists.push(vec![a, b]);
+                    for c in 0..d {
+                        if c != a && c != b && d >= 4 {
+                            axis_lists.push(vec![a, b, c]);
+                        }
+                    }
+                }
+            }
+        }
+    }
     for l in &axis_lists {
         cmds.push(vec!["view".into(), "-m".into(), j(l)]);
         cmds.push(vec!["view".into(), "-M".into(), j(l)]);
@@ -763,7 +778,7 @@ pub fn check(ctx: &Ctx) -> Check {
         }),
         Box::new(EnumPart {
             name: "g2-fold-and-view-options",
-            rule: "fold (4 fills) and every single view option on the same 340 shapes with arguments at and beyond their bounds: axes out of range / duplicated / all / usize::MAX, targets 0 / equal / smaller / larger / wrong rank / 10^12 / usize::MAX, -p values whose 2i+1 overflows",
+            rule: "fold (4 fills) and every single view option on the same 340 shapes with arguments at and beyond their bounds: axes out of range / duplicated / all / usize::MAX, every ordered pair and triple of distinct axes, targets 0 / equal / smaller / larger / wrong rank / 10^12 / usize::MAX, -p values whose 2i+1 overflows",
             exhaustive: true,
             cases: Box::new(|_| all_shapes(4, 1, 4).into_iter().enumerate().map(|(i, shape)| OptionCase { shape, npy: i % 2 == 1 }).collect()),
             eval: Box::new(eval_options),
